@@ -102,9 +102,11 @@ def check(rep, tier, seed):
         if s["kind"] == "walk" and not fails:
             # (b) enough undos reach the initial (empty) buffer
             nund = len(names) - s["mark"]
-            saved_states = len({l for l in lines[:s["mark"] + 1]})
+            # every undo goes back over at least one change of the text: as many undos as there were changes, plus one,
+            # are enough (counting distinct texts is not: a text that comes back, x / empty / x / empty, is a state each time)
+            saved_states = 1 + sum(1 for i in range(s["mark"]) if lines[i + 1] != lines[i])
             if nund >= saved_states + 1 and lines[-1] != () and s["hist"] is None:
-                fails.append("(b) %d undos over %d distinct states end at %r, not at the initial empty line" % (nund, saved_states, txt(lines[-1])))
+                fails.append("(b) %d undos over %d successive states end at %r, not at the initial empty line" % (nund, saved_states, txt(lines[-1])))
         if s["kind"] == "redo" and not fails:
             target = lines[s["mark"]]
             if lines[-1] != target:
